@@ -186,7 +186,11 @@ class _ExactLanguageSearch:
             settings=settings,
         )
         parser._settings = Settings()
-        return list(zip(substrings, [i[0]["date_obj"] for i in parsed]))
+        return [
+            (substring, item[0]["date_obj"])
+            for substring, item in zip(substrings, parsed)
+            if substring.strip()  # nothing of the text is left to report
+        ]
 
 
 class DateSearchWithDetection:
